@@ -167,11 +167,25 @@ impl ToUri for FileID {
             .get(*self)
             .map_err(|_| SarifError::UnknownFile(*self))?
             .name()
-            .replace('"', "")
             .into();
         // This path already comes from an UTF-8 string so it is ok to unwrap here.
-        Ok(format!("file://{}", path.to_str().unwrap()))
+        Ok(format!("file://{}", percent_encode(path.to_str().unwrap())))
     }
+}
+
+/// Percent-encodes every byte of the path which is not an unreserved URI
+/// character or a path separator, so that the URI names the file that was read.
+fn percent_encode(path: &str) -> String {
+    let mut result = String::new();
+    for byte in path.bytes() {
+        match byte {
+            b'A'..=b'Z' | b'a'..=b'z' | b'0'..=b'9' | b'-' | b'.' | b'_' | b'~' | b'/' => {
+                result.push(byte as char)
+            }
+            _ => result.push_str(&format!("%{byte:02X}")),
+        }
+    }
+    result
 }
 
 #[derive(Error, Debug)]
